@@ -107,9 +107,22 @@ func c12R10(r *core.Run) {
 			}
 			return false
 		}
+		// A parentless function with free variables is the wrapper of a bound method value `x.m` (in the
+		// loader's variant 2 it holds m's body): a closure body, analysed – like a function literal – from the
+		// functions that create it, where its receiver is bound. Only one that nothing in the package creates
+		// is looked at on its own (and is then undecided: fail-closed).
+		created := map[*ssa.Function]bool{}
+		for _, top := range p.PkgFuncs(c12redisPkg) {
+			if top.Parent() != nil || top.Blocks == nil || len(top.FreeVars) > 0 {
+				continue
+			}
+			for _, f := range c12closures(top)[1:] {
+				created[f] = true
+			}
+		}
 		n, nShared := 0, 0
 		for _, top := range p.PkgFuncs(c12redisPkg) {
-			if top.Parent() != nil || top.Blocks == nil {
+			if top.Parent() != nil || top.Blocks == nil || (len(top.FreeVars) > 0 && created[top]) {
 				continue
 			}
 			var w *c12fn
